@@ -27,10 +27,10 @@ fn bound_u(kind: &str, n: &str) -> Bound<u64> {
     }
 }
 
-type Getter = Box<dyn Fn(&ArgMatches) -> String>;
+type Getter = Box<dyn Fn(&ArgMatches) -> Vec<u8>>;
 
 fn getter<T: Clone + Send + Sync + std::fmt::Display + 'static>() -> Getter {
-    Box::new(|m: &ArgMatches| m.get_one::<T>("a").map(|v| v.to_string()).unwrap_or_else(|| "<none>".into()))
+    Box::new(|m: &ArgMatches| m.get_one::<T>("a").map(|v| v.to_string()).unwrap_or_else(|| "<none>".into()).into_bytes())
 }
 
 macro_rules! ranged_i {
@@ -103,7 +103,7 @@ fn run_one(cmd: &Command, get: &Getter, s: &[u8]) -> Value {
                 .get_raw("a")
                 .map(|r| r.map(|o| { use std::os::unix::ffi::OsStrExt; o.as_bytes().to_vec() }).collect())
                 .unwrap_or_default();
-            json!({"k": "Ok", "v": jb(v.as_bytes()), "raw_ok": raw == vec![s.to_vec()], "named": true})
+            json!({"k": "Ok", "v": jb(&v), "raw_ok": raw == vec![s.to_vec()], "named": true})
         }
         Ok(Err(e)) => {
             let named = e
@@ -166,6 +166,31 @@ pub fn c04_ranged_replay(input: &str, out: &str, div: &str) {
     rep.write(out);
 }
 
+#[derive(Clone, Copy, Debug, PartialEq, Eq)]
+enum Speed {
+    Fast,
+    Slow,
+}
+impl clap::ValueEnum for Speed {
+    fn value_variants<'a>() -> &'a [Self] {
+        &[Speed::Fast, Speed::Slow]
+    }
+    fn to_possible_value(&self) -> Option<PossibleValue> {
+        Some(match self {
+            Speed::Fast => PossibleValue::new("fast").alias("quick"),
+            Speed::Slow => PossibleValue::new("Slow").hide(true),
+        })
+    }
+}
+impl std::fmt::Display for Speed {
+    fn fmt(&self, f: &mut std::fmt::Formatter<'_>) -> std::fmt::Result {
+        f.write_str(match self {
+            Speed::Fast => "fast",
+            Speed::Slow => "Slow",
+        })
+    }
+}
+
 fn other_parser(pk: &str, ic: bool) -> (Arg, Getter) {
     let a = Arg::new("a").long("a").ignore_case(ic);
     match pk {
@@ -185,7 +210,18 @@ fn other_parser(pk: &str, ic: bool) -> (Arg, Getter) {
             a.value_parser(clap::value_parser!(OsString)),
             Box::new(|m: &ArgMatches| {
                 // rendered lossily only for UTF-8; compare through raw bytes instead
-                m.get_one::<OsString>("a").map(|v| v.to_string_lossy().into_owned()).unwrap_or_default()
+                m.get_one::<OsString>("a").map(|v| v.to_string_lossy().into_owned()).unwrap_or_default().into_bytes()
+            }),
+        ),
+        // EnumValueParser over a ValueEnum with the same names as the "possible" kind; the typed value is the variant,
+        // rendered by its canonical name
+        "enum" => (a.value_parser(clap::builder::EnumValueParser::<Speed>::new()), getter::<Speed>()),
+        // PathBufValueParser: every non-empty OS string, verbatim
+        "pathbuf" => (
+            a.value_parser(clap::value_parser!(std::path::PathBuf)),
+            Box::new(|m: &ArgMatches| {
+                use std::os::unix::ffi::OsStrExt;
+                m.get_one::<std::path::PathBuf>("a").map(|v| v.as_os_str().as_bytes().to_vec()).unwrap_or_else(|| b"<none>".to_vec())
             }),
         ),
         _ => panic!("pk {pk}"),
